@@ -164,10 +164,12 @@ def encArray (a : PgArray) : Bytes :=
 
 /-! ### what a correct tool must report -/
 
-/-- the value of a variable-length element whose payload is empty: the empty string for the text-like types (text,
-varchar, bpchar, xml), `\\x` for bytea; no other element type of the table has values with an empty payload -/
+/-- the value of a variable-length element whose payload is empty.  Among the element types of the table only the
+character strings (text 25, varchar 1043, bpchar 1042: `''`) and bytea (17: `\\x`) have a value whose stored payload is
+empty — every other varlena type (numeric, inet, bit, jsonb, ranges, path, …) stores at least a header word.  Written from
+the types of `pgArrayTypes`, not from the code (which has the same rule also for xml, a type without an array type here). -/
 def emptyValue (oid : Nat) : Option GoVal :=
-  if oid = 25 ∨ oid = 1043 ∨ oid = 1042 ∨ oid = 142 then some (.str [])
+  if oid = 25 ∨ oid = 1043 ∨ oid = 1042 then some (.str [])
   else if oid = 17 then some (.str [92, 120])
   else none
 
